@@ -657,7 +657,22 @@ _PositionInfo = _nt('_PositionInfo', 'start, end')
 _Position = _nt('_Position', 'index, line, column')
 
 
-class _ParseFunction(_nt('_ParseFunction', 'func, args, kwargs')):
+def _kinds(value):
+    if isinstance(value, (tuple, list)):
+        return (value.__class__,) + tuple(_kinds(x) for x in value)
+    elif isinstance(value, dict):
+        return (value.__class__,) + tuple((k, _kinds(v)) for k, v in value.items())
+    else:
+        return value.__class__
+
+
+class _ParseFunction(_nt('_ParseFunction', 'func, args, kwargs, kinds')):
+    def __new__(cls, func, args, kwargs):
+        # The memo table is keyed by this object. Equal values of different
+        # types (0 and False, 1 and 1.0) are different arguments.
+        kinds = _kinds((args, kwargs))
+        return super().__new__(cls, func, args, kwargs, kinds)
+
     def __call__(self, ${ctx}_text, _pos):
         return self.func(${ctx}_text, _pos, *self.args, **dict(self.kwargs))
 
